@@ -7,6 +7,7 @@ import (
 	"sort"
 	"strings"
 	"sync"
+	"sync/atomic"
 	"time"
 
 	"verif/fw"
@@ -133,6 +134,12 @@ func run(c *fw.Ctx, idx int) {
 	var fmu sync.Mutex
 	failPin := map[string]bool{}
 	failUnpin := map[string]bool{}
+	// once this process has reported three statuses without an operation behind them, the
+	// remaining cases fail their pins the plain way only (each such report costs 30 s)
+	var plainErrors int32
+	if stuck, _ := c.Store["c06-stuck"].(int); stuck >= 3 {
+		plainErrors = 1
+	}
 	rig.IPFS.SetGate(func(call sim.IPFSCall) sim.Decision {
 		fmu.Lock()
 		defer fmu.Unlock()
@@ -144,6 +151,18 @@ func run(c *fw.Ctx, idx int) {
 			return sim.Decision{Hold: ch, Err: fmt.Errorf("ipfs model: scripted failure of the held unpin")}
 		}
 		if call.Op == "pin" && failPin[call.Cid.KeyString()] {
+			// the ways a pin fails: the daemon says no, or the connector gives up on a pin
+			// that makes no progress (it cancels its own request: context.Canceled as such)
+			kind := call.Cid.KeyString()[len(call.Cid.KeyString())-1] % 3
+			if atomic.LoadInt32(&plainErrors) == 1 {
+				kind = 2
+			}
+			switch kind {
+			case 0:
+				return sim.Decision{Err: context.Canceled}
+			case 1:
+				return sim.Decision{Err: fmt.Errorf("ipfs model: pin gave up: %w", context.Canceled)}
+			}
 			return sim.Decision{Err: fmt.Errorf("ipfs model: scripted pin failure")}
 		}
 		if call.Op == "unpin" && failUnpin[call.Cid.KeyString()] {
@@ -182,7 +201,38 @@ func run(c *fw.Ctx, idx int) {
 		}
 		return p
 	}
+	// notQuiescent: called when the tracker did not come to rest within 20 s. If nothing at
+	// all happens any more - no call inside the daemon, the daemon's call log not growing
+	// for 10 more seconds - and a CID is still shown as queued or in progress, that status
+	// has no operation behind it.
+	notQuiescent := func(upto int) {
+		n0 := rig.IPFS.NCalls()
+		idle := true
+		for w := 0; w < 100 && idle; w++ {
+			time.Sleep(100 * time.Millisecond)
+			if rig.IPFS.Inflight() > 0 || rig.IPFS.NCalls() != n0 {
+				idle = false
+			}
+		}
+		if idle {
+			for i := 0; i < upto; i++ {
+				st := rig.T.Status(ctx, cids[i]).Status
+				if class(st) == "pending" {
+					stuck, _ := c.Store["c06-stuck"].(int)
+					c.Store["c06-stuck"] = stuck + 1
+					c.Violation(fmt.Sprintf("C06/in-progress-status-without-operation/%s/%s", facts[i].lastOp, st),
+						fmt.Sprintf("c%d is shown as %s although nothing has been pending for 30 s (no call in the daemon, no new call for 10 s); last operation: %s", i, st, facts[i].lastOp),
+						map[string]interface{}{"facts": fmt.Sprintf("%+v", facts[i])})
+					return
+				}
+			}
+		}
+		c.Inconclusive("situation did not quiesce")
+	}
+	stuckEarly := false
+	built := 0
 	for i := range facts {
+		built = i + 1
 		f := fact{lastOp: "none"}
 		f.entry = r.Pick("absent", "local", "local", "everywhere", "remote", "meta")
 		if r.Chance(1, 3) {
@@ -285,8 +335,15 @@ func run(c *fw.Ctx, idx int) {
 		}
 		if smallQueue {
 			// one operation at a time: only the deliberate overflow below may meet a full queue
-			rig.Quiesce(ctx, 20*time.Second)
+			if !rig.Quiesce(ctx, 20*time.Second) {
+				stuckEarly = true
+				break
+			}
 		}
+	}
+	if stuckEarly {
+		notQuiescent(built)
+		return
 	}
 	if smallQueue {
 		// overflow: the worker is busy with A (held inside the daemon), B fills the
@@ -354,8 +411,8 @@ func run(c *fw.Ctx, idx int) {
 			}
 		}
 	}
-	if !rig.Quiesce(ctx, 20*time.Second) {
-		c.Inconclusive("situation did not quiesce")
+	if stuckEarly || !rig.Quiesce(ctx, 20*time.Second) {
+		notQuiescent(built)
 		return
 	}
 	// facts are final now
